@@ -148,6 +148,10 @@ pub struct Gen<'a> {
     gen_depth: usize,
     /// > 0 where the same code will run on states other than the one it is generated on
     force_fresh: usize,
+    /// Merkle trees loaded into the advice provider: leaves per tree
+    pub trees: Vec<Vec<[u64; 4]>>,
+    /// roots known to the store (initial ones and those produced by mtree_set) with their depth
+    roots: Vec<([u64; 4], u64)>,
 }
 
 #[derive(Clone, Copy, PartialEq, Eq, Debug)]
@@ -215,6 +219,8 @@ impl<'a> Gen<'a> {
             cur_proc_limit: 0,
             gen_depth: 0,
             force_fresh: 0,
+            trees: vec![],
+            roots: vec![],
         }
     }
 
@@ -537,6 +543,9 @@ impl<'a> Gen<'a> {
             }
             6 => {
                 self.classes.insert("crypto");
+                if !self.roots.is_empty() && self.force_fresh == 0 && self.ch.chance(1, 2) {
+                    return self.gen_merkle(m, out, fail);
+                }
                 let c = self.ch.pick(3);
                 ([Hperm, Hash, Hmerge][c], vec![], None)
             }
@@ -715,6 +724,83 @@ impl<'a> Gen<'a> {
         match m.step(&ins) {
             Ok(()) => out.push(Node::I(ins)),
             Err(MErr::Fail(f)) if fail => {
+                out.push(Node::I(ins));
+                self.failed = Some(f);
+            }
+            Err(_) => {
+                *m = snapshot;
+                out.truncate(mark);
+            }
+        }
+    }
+
+    /// mtree_get / mtree_verify / mtree_set on one of the trees known to the store
+    fn gen_merkle(&mut self, m: &mut Model, out: &mut Vec<Node>, fail: bool) {
+        self.classes.insert("merkle");
+        let snapshot = m.clone();
+        let mark = out.len();
+        let (root, depth) = self.roots[self.ch.pick(self.roots.len())];
+        let d = if self.ch.chance(3, 4) { depth } else { 1 + self.ch.pick(depth as usize) as u64 };
+        let idx = self.ch.pick(1usize << d) as u64;
+        let which = self.ch.pick(3);
+        let emit = |g: &mut Gen, m: &mut Model, out: &mut Vec<Node>, vals: Vec<u64>| {
+            let i = g.push_ins(vals);
+            m.step(&i).unwrap();
+            out.push(Node::I(i));
+        };
+        let op = match which {
+            0 => {
+                emit(self, m, out, root.to_vec());
+                emit(self, m, out, vec![idx, d]);
+                Op::MtreeGet
+            }
+            1 => {
+                // the node the tree really holds (or, in failure mode, another value)
+                let node = {
+                    use vm_core::crypto::merkle::NodeIndex;
+                    let ni = NodeIndex::new(d as u8, idx).unwrap();
+                    m.store.get_node(root.map(vm_core::Felt::new).into(), ni).ok().map(|n| {
+                        let w: [vm_core::Felt; 4] = n.into();
+                        w.map(|f| vm_core::StarkField::as_int(&f))
+                    })
+                };
+                let Some(mut node) = node else {
+                    *m = snapshot;
+                    out.truncate(mark);
+                    return;
+                };
+                if fail {
+                    node[self.ch.pick(4)] = self.ch.felt();
+                }
+                emit(self, m, out, root.to_vec());
+                emit(self, m, out, vec![idx, d]);
+                emit(self, m, out, node.to_vec());
+                Op::MtreeVerify
+            }
+            _ => {
+                let nv: Vec<u64> = (0..4).map(|_| self.ch.felt()).collect();
+                emit(self, m, out, nv);
+                emit(self, m, out, root.to_vec());
+                emit(self, m, out, vec![idx, d]);
+                Op::MtreeSet
+            }
+        };
+        let ins = Ins::new(op, None, op_name(op));
+        match m.step(&ins) {
+            Ok(()) => {
+                out.push(Node::I(ins));
+                if op == Op::MtreeSet {
+                    // [V_old, R_new, ...]: remember the new root
+                    let st = m.final_stack();
+                    if st.len() >= 8 {
+                        let r = [st[7], st[6], st[5], st[4]];
+                        if !self.roots.iter().any(|(x, _)| *x == r) && self.roots.len() < 6 {
+                            self.roots.push((r, depth));
+                        }
+                    }
+                }
+            }
+            Err(MErr::Fail(f)) if fail && which == 1 => {
                 out.push(Node::I(ins));
                 self.failed = Some(f);
             }
@@ -1257,6 +1343,16 @@ pub fn op_name(op: Op) -> &'static str {
     }
 }
 
+/// loads a Merkle tree with the given leaves into the model's store; returns its root
+fn load_tree(m: &mut Model, leaves: &[[u64; 4]]) -> [u64; 4] {
+    use vm_core::crypto::merkle::MerkleTree;
+    let words: Vec<vm_core::Word> = leaves.iter().map(|w| w.map(vm_core::Felt::new)).collect();
+    let mt = MerkleTree::new(words).expect("power of two leaves");
+    m.store.extend(mt.inner_nodes());
+    let r: [vm_core::Felt; 4] = mt.root().into();
+    r.map(|f| vm_core::StarkField::as_int(&f))
+}
+
 /// Generate a complete program + inputs + expectation from a choice vector.
 pub fn generate(choices: &[u16], cfg: GenCfg) -> Generated {
     let mut g = Gen::new(choices, cfg);
@@ -1275,6 +1371,16 @@ pub fn generate(choices: &[u16], cfg: GenCfg) -> Generated {
     .min(g.cfg.max_inputs);
     let inputs: Vec<u64> = (0..nin).map(|_| g.ch.felt()).collect();
     let mut m = Model::new(&inputs);
+    // Merkle trees for mtree_get / mtree_set / mtree_verify
+    if g.cfg.crypto && g.ch.chance(1, 2) {
+        for _ in 0..1 + g.ch.pick(2) {
+            let depth = 1 + g.ch.pick(4);
+            let leaves: Vec<[u64; 4]> = (0..1usize << depth).map(|_| [g.ch.felt(), g.ch.felt(), g.ch.felt(), g.ch.felt()]).collect();
+            let root = load_tree(&mut m, &leaves);
+            g.roots.push((root, depth as u64));
+            g.trees.push(leaves);
+        }
+    }
     m.adv_on_demand = g.cfg.adv;
     m.adv_rng = 0x1234_5678_9abc_def1 ^ ((g.ch.next() as u64) << 20);
     let len = g.cfg.max_nodes;
@@ -1293,6 +1399,9 @@ pub fn generate(choices: &[u16], cfg: GenCfg) -> Generated {
     // final clean run
     let tape = m.adv.clone();
     let mut fm = Model::new(&inputs);
+    for t in &g.trees {
+        load_tree(&mut fm, t);
+    }
     fm.adv = tape.clone();
     fm.count_ops = true;
     let r = fm.run(&prog);
@@ -1311,6 +1420,7 @@ pub fn generate(choices: &[u16], cfg: GenCfg) -> Generated {
         kernel: render_kernel(&prog),
         stack: inputs,
         adv: tape,
+        trees: g.trees.clone(),
         ..Case::default()
     };
     Generated {
